@@ -950,6 +950,19 @@ func propCases(prop string, g *Gen, n int) []*Case {
 			}
 			add(&Case{R: r, Refs: refs, Obs: obs, Oracles: orc, Hops: hops})
 		}
+		// branches whose text is empty, ends in a newline or holds a blank line (recorded finding
+		// join-blank-line-branch: the library Join prints through the formatting engine, which drops such newlines)
+		for _, ss := range [][]string{{"x\n", "c"}, {"c", "x\n"}, {"x\n\n", "c"}, {"a\n\nb", "c"}, {"", "c"}, {"c", ""}, {"", ""}, {"a\nb", "c"}} {
+			for _, op := range []string{"join", "stdjoin"} {
+				for _, leafOp := range []string{"new", "stdnew"} {
+					var kids []*R
+					for _, t := range ss {
+						kids = append(kids, &R{Op: leafOp, S: []string{t}})
+					}
+					add(&Case{R: &R{Op: op, Kids: kids}, Obs: names("shape", "text"), Oracles: []string{"C13join"}})
+				}
+			}
+		}
 	case "C14":
 		for i := 0; i < n; i++ {
 			r := g.Tree(1 + g.r.intn(5))
